@@ -40,7 +40,7 @@ import (
 
 // EOp is one client operation of an end-to-end session
 type EOp struct {
-	K    string `json:"k"`              // write | query | cont | evict | trunc | describe | show | pipe | unpipe
+	K    string `json:"k"`              // write | query | cont | evict | trunc | describe | show | pipe | hold | rebuild | serve
 	Tag  int    `json:"tag,omitempty"`  // write, describe: the tag line p=t<Tag>
 	M    []int  `json:"m,omitempty"`    // query, trunc, show, pipe: tag lines of the FROM condition
 	N    int    `json:"n,omitempty"`    // write: records; query: limit
@@ -107,6 +107,7 @@ type e2e struct {
 	prev    []row
 	counts  map[string]int
 	noK     bool
+	held    bool // the time index rebuilder is held: requests queue up until they are served by "serve"
 	pipes   map[string]bool
 }
 
@@ -296,6 +297,21 @@ func (e *e2e) do(op EOp) (who string, acts []sessEv) {
 		} else {
 			e.guarded(who, func() { err = srv.Partitions.Write(ctx, tags, it, false) })
 		}
+		if err == nil && !e.noK {
+			// (sync sessions) the chunk writer flushes a few ms later; until then the journal's size is 0
+			// and TRUNCATE treats the partition as empty: wait until the records can be read, so that
+			// what a following TRUNCATE does depends on the session only
+			q := api.QueryRequest{Query: "SELECT FROM " + tagLine(op.Tag), Pos: "tail", Offset: -1, Limit: 1}
+			WaitFor(10*time.Second, func() bool {
+				seen := false
+				e.guarded(who, func() {
+					qq := q
+					r, qerr := srv.Querier.Query(ctx, &qq)
+					seen = r != nil && len(r.Events) > 0 && (qerr == nil || qerr == io.EOF)
+				})
+				return seen || e.stuck
+			})
+		}
 		if (op.Fail == "") != (err == nil) {
 			// not a C14 matter, but the generator relies on it
 			e.counts["write-outcome-unexpected"]++
@@ -427,6 +443,42 @@ func (e *e2e) do(op EOp) (who string, acts []sessEv) {
 			}
 		})
 		acts = append(acts, sessEv{actor: e.newActor(fmt.Sprintf("(PWrite %d false)", op.Tag))})
+	case "hold":
+		// from now on rebuild requests wait in the rebuilder's list (as they do when its 10 workers are busy)
+		if !e.held {
+			srv.Partitions.VC02HoldRebuilder()
+			e.held = true
+		}
+		who = "rebuilder-hold"
+	case "rebuild":
+		// a reader that works with the chunk list it got a moment ago asks for the time index of every
+		// chunk to be rebuilt (what JIterator / cselector / DESCRIBE do when the index of a chunk is unusable)
+		who = "rebuild-requests"
+		n := 0
+		e.guarded(who, func() {
+			pi, err := srv.Partitions.GetParitionInfo(tagLine(op.Tag))
+			if err != nil {
+				return
+			}
+			for _, ci := range pi.Chunks {
+				srv.Partitions.GetTmIndexRebuilder().RebuildIndex(pi.JournalId, ci.Id, true)
+				n++
+			}
+		})
+		if n > 1 {
+			e.counts["rebuild-requests-for-several-chunks"]++
+		}
+		acts = append(acts, sessEv{actor: e.newActor(fmt.Sprintf("(PWrite %d false)", op.Tag))})
+	case "serve":
+		// the rebuilder gets to its list (its own serve function, request by request)
+		who = "rebuilder-serve"
+		if e.held {
+			n := 0
+			e.guarded(who, func() { n = len(srv.Partitions.VC02ServeQueued()) })
+			if n > 0 {
+				e.counts["rebuild-requests-served-late"]++
+			}
+		}
 	case "show":
 		who = "show-partitions"
 		e.guarded(who, func() { srv.Exec("SHOW PARTITIONS " + fromCond(op.M)) })
@@ -437,6 +489,9 @@ func (e *e2e) do(op EOp) (who string, acts []sessEv) {
 
 // rebuilderIdle: no index rebuild request is queued or being served (a positive observation)
 func (e *e2e) rebuilderIdle() bool {
+	if e.held {
+		return true // requests wait until a "serve" operation (the end of the session serves what is left)
+	}
 	return WaitFor(15*time.Second, func() bool { return len(e.srv.Partitions.VC02Queued()) == 0 })
 }
 
@@ -661,7 +716,12 @@ func runSync(ops []EOp) (*e2e, error) {
 			return nil, err
 		}
 	}
-	// the session ends: the provider sweeps, then everything must be unused
+	// the session ends: the rebuilder serves what is left, the provider sweeps, then everything must be unused
+	if e.held && !e.stuck && e.viol == nil {
+		if err := e.syncStep(EOp{K: "serve"}); err != nil {
+			return nil, err
+		}
+	}
 	if !e.stuck && e.viol == nil {
 		if err := e.syncStep(EOp{K: "evict"}); err != nil {
 			return nil, err
@@ -768,10 +828,14 @@ func genE2EOps(r *Rng, async bool) []EOp {
 			ops = append(ops, EOp{K: "pipe", M: sub()})
 		}
 	}
+	held := !async && r.Chance(2, 5)
+	if held {
+		ops = append(ops, EOp{K: "hold"})
+	}
 	// every tag line gets data early, so that queries and truncation have something to do
 	for t := 0; t < ntags; t++ {
 		if r.Chance(4, 5) {
-			ops = append(ops, EOp{K: "write", Tag: t, N: r.PickInt(1, 3, 40, 120), Who: t % 3})
+			ops = append(ops, EOp{K: "write", Tag: t, N: r.PickInt(1, 3, 40, 120, 300), Who: t % 3})
 		}
 	}
 	for len(ops) < n {
@@ -791,9 +855,19 @@ func genE2EOps(r *Rng, async bool) []EOp {
 		case x < 70:
 			op = EOp{K: "evict"}
 		case x < 84:
-			op = EOp{K: "trunc", M: sub(), Dry: r.Chance(1, 4), Mode: r.PickInt(0, 0, 1, 2, 2, 3)}
-		case x < 92:
+			op = EOp{K: "trunc", M: sub(), Dry: r.Chance(1, 3), Mode: r.PickInt(0, 1, 1, 2, 2, 2, 3)}
+		case x < 88:
 			op = EOp{K: "describe", Tag: r.Intn(ntags)}
+		case x < 93:
+			// requests for every chunk, then (mostly) a truncation that drops the older chunks before they are served
+			op = EOp{K: "rebuild", Tag: r.Intn(ntags)}
+			if r.Chance(2, 3) {
+				op.Who = r.Intn(3)
+				ops = append(ops, op)
+				op = EOp{K: "trunc", M: []int{op.Tag}, Mode: r.PickInt(1, 1, 3)}
+			}
+		case x < 96 && held:
+			op = EOp{K: "serve"}
 		default:
 			op = EOp{K: "show", M: sub()}
 		}
@@ -814,6 +888,12 @@ func e2eCorpus() [][]EOp {
 		{{K: "write", Tag: 0, N: 2}, {K: "write", Tag: 0, N: 4, Fail: "middle"}, {K: "trunc", M: []int{0}, Mode: 2}},
 		// a batch whose source fails in the middle; one that fails on the first record of a new partition (left empty: plain TRUNCATE deletes it)
 		{{K: "write", Tag: 1, N: 5, Fail: "iter"}, {K: "write", Tag: 2, N: 1, Fail: "first"}, {K: "trunc", M: []int{1, 2}, Mode: 0}, {K: "describe", Tag: 1}},
+		// a dry run that enters the global phase (total size above MAXDBSIZE) must leave the partitions as
+		// unused as a real one: the real truncation after it deletes them
+		{{K: "write", Tag: 0, N: 40}, {K: "write", Tag: 1, N: 40}, {K: "trunc", M: []int{0, 1}, Dry: true, Mode: 2}, {K: "trunc", M: []int{0, 1}, Mode: 2}},
+		// rebuild requests wait in the rebuilder's list while TRUNCATE drops the older chunks of the partition;
+		// then the rebuilder serves them (chunk not found): the partition must be unused afterwards
+		{{K: "hold"}, {K: "write", Tag: 0, N: 300}, {K: "write", Tag: 0, N: 300}, {K: "rebuild", Tag: 0}, {K: "trunc", M: []int{0}, Mode: 1}, {K: "serve"}, {K: "trunc", M: []int{0}, Mode: 2}},
 		// a kept cursor is re-positioned (stale position, then a bad one)
 		{{K: "write", Tag: 0, N: 40}, {K: "query", M: []int{0}, N: 1, Keep: true, Cur: 1}, {K: "cont", Cur: 1, Pos: "next"}, {K: "cont", Cur: 1, Pos: "stale"}, {K: "cont", Cur: 1, Pos: "bad"}, {K: "show", M: []int{0}}},
 	}
